@@ -8,7 +8,10 @@
     4    in-flow, non-positioned, block-level descendants: background, border — tree order;
     5    non-positioned floats, each painted as if it formed a context (but positioned descendants and
          real child contexts take part in the parent context);
-    7    inline content of the box and of its in-flow non-positioned block descendants — tree order;
+    7    inline content of the box and of its in-flow non-positioned block descendants — tree order; inside
+         one block, for each line box, the inline-level boxes in tree order: text runs, the children of inline
+         boxes, and inline-blocks painted atomically "as if they generated a new stacking context" (E.2
+         7.2.1.4) — their floats, positioned and z-ordered descendants still belong to the enclosing context;
     8    positioned descendants with z-index auto (painted like floats in 5) and child contexts with
          z-index 0 (incl. opacity/transform/overflow contexts), all in tree order;
     9    child contexts with positive z-index, smallest first, ties in tree order;
@@ -34,7 +37,7 @@ def BProps.specZ (p : BProps) : Int := if p.positioned then p.z.getD 0 else 0
 
 /-- one (pseudo-)context, from its layers -/
 def layers (id : Nat) (pr : BProps) (parts : List CCtx) (blocks : List Nat) (floats : List (List PEv))
-    (lines inflow : List Nat) : List PEv :=
+    (lines : List (List PEv)) (inflow : List Nat) : List PEv :=
   (if pr.opacity then [(id, Layer.groupOpen)] else [])
   ++ (if pr.transform then [(id, Layer.xformOpen)] else [])
   ++ (if pr.blockLevel || pr.inlineBlock then [(id, Layer.background), (id, Layer.border)] else [])
@@ -42,7 +45,7 @@ def layers (id : Nat) (pr : BProps) (parts : List CCtx) (blocks : List Nat) (flo
   ++ ((sortZ (parts.filter (·.1 < 0))).flatMap (·.2))
   ++ (blocks.flatMap fun b => [(b, Layer.background), (b, Layer.border)])
   ++ floats.flatten
-  ++ (((if pr.hasLines then [id] else []) ++ lines).map fun b => (b, Layer.content))
+  ++ lines.flatten
   ++ ((parts.filter (·.1 == 0)).flatMap (·.2))
   ++ ((sortZ (parts.filter (·.1 > 0))).flatMap (·.2))
   ++ (if pr.overflow then [(id, Layer.clipClose)] else [])
@@ -54,14 +57,16 @@ mutual
   /-- a real stacking context -/
   def specReal : Box → List PEv
     | .mk id pr children =>
-      layers id pr (participants children) (flowBlocks children) (floatsOf children) (flowLines children) (flowAll children)
+      layers id pr (participants children) (flowBlocks children) (floatsOf children)
+        ((if pr.hasLines then [inlineOf children] else []) ++ flowLines children) (flowAll children)
 
   /-- a float or a positioned box with z-index auto: "as if it created a new stacking context, but any
       positioned descendants and descendants which actually create a new stacking context are part of
       the parent stacking context" -/
   def specPseudo : Box → List PEv
     | .mk id pr children =>
-      layers id pr [] (flowBlocks children) (floatsOf children) (flowLines children) (flowAll children)
+      layers id pr [] (flowBlocks children) (floatsOf children)
+        ((if pr.hasLines then [inlineOf children] else []) ++ flowLines children) (flowAll children)
 
   /-- steps 3/8/9: the descendants that take part in the z-ordering of the enclosing real context, in tree order -/
   def participants : List Box → List CCtx
@@ -86,11 +91,23 @@ mutual
        else if !pr.makesContext && !pr.positioned && pr.floated then [specPseudo (.mk id pr children)]
        else []) ++ floatsOf rest
 
-  /-- step 7: in-flow blocks with line boxes -/
-  def flowLines : List Box → List Nat
+  /-- step 7: per in-flow block with line boxes, the inline drawing of its lines -/
+  def flowLines : List Box → List (List PEv)
     | [] => []
     | .mk id pr children :: rest =>
-      (if pr.inFlow then (if pr.blockLevel && pr.hasLines then [id] else []) ++ flowLines children else []) ++ flowLines rest
+      (if pr.inFlow then (if pr.blockLevel && pr.hasLines then [inlineOf children] else []) ++ flowLines children else [])
+      ++ flowLines rest
+
+  /-- the inline drawing of a list of boxes inside a line (E.2 step 7.2.1): text runs, the children of line and
+      inline boxes, inline-blocks atomically; floats, positioned boxes and real contexts are painted elsewhere -/
+  def inlineOf : List Box → List PEv
+    | [] => []
+    | .mk id pr children :: rest =>
+      (if pr.inFlow then
+         (if pr.text then [(id, Layer.content)] else if pr.blockLevel then [] else inlineOf children)
+       else if !pr.makesContext && !pr.positioned && !pr.floated && pr.inlineBlock then specPseudo (.mk id pr children)
+       else [])
+      ++ inlineOf rest
 
   /-- step 10: the in-flow descendants, pre-order -/
   def flowAll : List Box → List Nat
